@@ -2417,9 +2417,11 @@ def closure_glyphs(self, s):
 def subset_glyphs(self, s):
     table = self.table.Baseline
     if table.Format in (1, 3):
+        # sorted: s.glyphs is a set, and a tie for the most common baseline
+        # below is decided by insertion order
         baselines = {
             glyph: table.BaselineValues.get(glyph, table.DefaultBaseline)
-            for glyph in s.glyphs
+            for glyph in sorted(s.glyphs)
         }
         if len(baselines) > 0:
             mostCommon, _cnt = Counter(baselines.values()).most_common(1)[0]
